@@ -23,6 +23,16 @@ CHECKS = {
         "space is enumerated completely on every run.",
    note="trusted: the 15-line Kleene model, the harness dump; truth values of relational operators on non-null operands are not asserted (outside the statement)",
    design="4/C04"),
+ "C10": dict(
+   technique="model-based runtime monitor (python reference semantics + round-trip relations) over seeded argument lattices + ASan/UBSan",
+   text="Every string/bytes/conversion builtin named in the property (and at/put/insert/concat/count on strings and bytes) is called by the real "
+        "interpreter on 8-bit-clean byte strings (empty, blank, NUL/high bytes, 1022-1025 bytes, numeric-looking text) with positions/counts from a "
+        "boundary lattice and typed/untyped nulls; results are judged by conservative sub-oracles (exact slice in the documented domain, otherwise "
+        "'BLOC error or contiguous part of the argument'; b64, int/str, num/str round trips; isnum<=>num; OUT_OF_RANGE for codes outside 0..255; "
+        "DJB hash), argument variables are dumped after each call batch and must be unchanged, ASan+UBSan watch for out-of-bounds reads.",
+   note="trusted: python bytes semantics as reference; results for negative/oversized positions are only required to be a BLOC error or a contiguous part "
+        "of the input (manual is one line per builtin); known findings: num(str(d))/isnum(str(d)) for subnormal d",
+   design="4/C10"),
 }
 
 NOT_YET = "check not built yet in this round (see DESIGN.md section 4 for the planned runtime monitor)"
